@@ -95,7 +95,8 @@ fn drive(case: &Case, mode: Mode, rec: bool, st: Option<&mut Stats>) -> Driven {
     // Sliced by the instruction limit: the host grants a fresh budget and drives on in the same
     // manner (run() after eval / run(), next() after next()) until the program ends. However the
     // execution was sliced, what the program does must not change.
-    if result.contains("insn limit reached") && xs.is_running() {
+    let paused = result.starts_with("Err(ErrorMsg(\"insn limit reached") && xs.verif_insn_meter() >= case.insn_limit;
+    if paused && xs.is_running() {
         let budget = 20_000usize;
         xs.set_insn_limit(Some(budget)).unwrap();
         let r2: Xresult = match mode {
